@@ -1451,6 +1451,40 @@ static int exec_line(char* line)
     free(u.p);
     free(tail.p);
   }
+  else if (strcmp(op, "bufcut") == 0)
+  {
+    // bufcut <src> <dst> <n>: dst = first n bytes of src
+    int a = slot(tk[1], NBUF), b2 = slot(tk[2], NBUF);
+    size_t n = (size_t) atol(tk[3]);
+    if (n > bufs[a].n)
+      n = bufs[a].n;
+    uint8_t* p = (uint8_t*) malloc(n + 1);
+    memcpy(p, bufs[a].p, n);
+    if (a != b2)
+      free(bufs[b2].p);
+    else
+      free(bufs[a].p);
+    bufs[b2].p = p;
+    bufs[b2].n = n;
+  }
+  else if (strcmp(op, "bufpoke") == 0)
+  {
+    // bufpoke <src> <dst> <offset> <hexbytes>: dst = src with bytes overwritten
+    int a = slot(tk[1], NBUF), b2 = slot(tk[2], NBUF);
+    size_t o = (size_t) atol(tk[3]);
+    BYTES v = unhex(tk[4]);
+    uint8_t* p = (uint8_t*) malloc(bufs[a].n + 1);
+    memcpy(p, bufs[a].p, bufs[a].n);
+    for (size_t i = 0; i < v.n && o + i < bufs[a].n; i++) p[o + i] = v.p[i];
+    size_t n = bufs[a].n;
+    if (a != b2)
+      free(bufs[b2].p);
+    else
+      free(bufs[a].p);
+    bufs[b2].p = p;
+    bufs[b2].n = n;
+    free(v.p);
+  }
   else if (strcmp(op, "buffile") == 0)
   {
     int b = slot(tk[1], NBUF);
